@@ -20,6 +20,7 @@ type symSpec struct {
 	timeoutQ, timeoutT time.Duration
 	rule               string
 	assumptions        []string
+	bigFam             string // family of spec/Gen_Big.tla (large tensors through parametric templates) belonging to this property
 }
 
 var symAssumptions = []string{
@@ -48,6 +49,21 @@ func symCheck(s symSpec) checkFn {
 		if err := c.ReplaySym(files, assign); err != nil {
 			return err
 		}
+		if s.bigFam != "" {
+			c.Logf("TLC: large-tensor cases (Gen_Big, family %s; templates checked against the definitions on the small grid)", s.bigFam)
+			big, err := c.Generate("Gen_Big", 1, timeout, "QV_FAM="+s.bigFam)
+			if err != nil {
+				return err
+			}
+			nb := 3
+			if c.Thorough {
+				nb = 12
+			}
+			if err := c.ReplaySym(big, nb); err != nil {
+				return err
+			}
+			c.AddExtra("large_tensor_cases", "spec/Gen_Big.tla: tensors of 1000-16000 elements, one parametric term per result; TemplatesAgree checked by TLC")
+		}
 		c.AddExtra("generator", "spec/"+s.module+".tla evaluated by TLC")
 		c.AddExtra("assignments_per_case", assign)
 		c.AddExtra("exhaustive", false)
@@ -66,14 +82,17 @@ func writeWork(c *run.Ctx, name, content string) error {
 
 func init() {
 	register("C03", "exploration", symCheck(symSpec{
+		bigFam: "c03",
 		module: "Gen_C03", partsQ: 4, partsT: 16, assignQ: 6, assignT: 12, timeoutT: 40 * time.Minute,
 		rule: "one case per (operation, operand shapes, parameter) of the grid enumerated by TLC (quick: Shapes(3,2) U Shapes(2,3) + 3 high-rank shapes, every broadcast-compatible ordered pair, operation rotated by seed; thorough: Shapes(4,3) U Shapes(6,2), every pair x every operation); every result element compared with the term of the specification under several float64 assignments; distinct = distinct (op, shapes, parameters); non-trivial = some tensor has more than one element",
 	}))
 	register("C04", "exploration", symCheck(symSpec{
+		bigFam: "c04",
 		module: "Gen_C04", partsQ: 4, partsT: 16, assignQ: 5, assignT: 10, timeoutT: 40 * time.Minute,
 		rule: "one case per (operation, operand shapes): MatMul for all m,n,k and every broadcast-compatible ordered pair of batch shapes (quick: sizes 1..2 + 3 mixed, batch Shapes(2,2)+4; thorough: sizes 1..3, batch Shapes(4,2) U Shapes(2,3), ranks up to 6), Dot for every compatible pair of leading shapes x contracted size 1..3, Transpose for every shape of rank >= 2, rejected shape combinations, and the identity programs (A.B)^T = B^T.A^T, A.I = A, Dot = MatMul(row, column); the same identities are checked by TLC on the specification with rational entries; distinct = distinct (op, shapes); non-trivial = some tensor has more than one element",
 	}))
 	register("C05", "exploration", symCheck(symSpec{
+		bigFam: "c05",
 		module: "Gen_C05", partsQ: 2, partsT: 8, assignQ: 10, assignT: 20, timeoutT: 40 * time.Minute,
 		rule: "whole-tensor Sum/Max/Min/Avg/Mean/Var/Std for every shape of the grid and the seven Along(dim) forms for every dim of every shape (quick: Shapes(3,2) U Shapes(2,3) + 3 high-rank shapes; thorough: Shapes(4,3) U Shapes(6,2)); invalid dims must be rejected; assignments include ties, zeros, single-element fibres and magnitudes 1e+-150; distinct = distinct (statistic, shape, dim)",
 	}))
@@ -88,6 +107,7 @@ func init() {
 		assumptions: []string{"an arbitrary upstream weighting is realised as BackPropagate(y.Mul(g)) with g untracked"},
 	}))
 	register("C07", "exploration", symCheck(symSpec{
+		bigFam: "c07",
 		module: "Gen_C07", partsQ: 8, partsT: 16, assignQ: 6, assignT: 12, timeoutT: 60 * time.Minute,
 		rule:        "explicit Broadcast: every source shape x every target of the expansion grid (leading dims added, size-1 dims expanded, both, factor 1); implicit expansion: Add/Sub/Mul/Div over every broadcast-compatible ordered pair of different shapes, Dot and MatMul over compatible batch shapes, every non-empty subset of tracked operands; z = y*g, BackPropagate(z); expected = sum of upstream gradient over copies (by differentiation of the definition); each case with factor > 1 also carries the gradient under the recorded deviation broadcast_grad_mean (want / factor) and is classified as that known finding only if it matches it exactly; distinct = distinct (op, shapes, tracked subset)",
 		assumptions: []string{"known finding D2 (known_findings.json): cases matching the deviation's prediction are counted as the finding, anything else is a violation"},
@@ -102,6 +122,7 @@ func init() {
 		assumptions: []string{"known finding D2 reaches this property only through FC / Softmax upstream of the loss (known_findings.json)"},
 	}))
 	register("C14", "exploration", symCheck(symSpec{
+		bigFam: "c14",
 		module: "Gen_C14", partsQ: 2, partsT: 8, assignQ: 12, assignT: 40,
 		rule: "Relu, LeakyRelu (nil config, slopes 0, 1/2, -1, 3), Sigmoid, Tanh over every shape of the grid; Softmax for every dim of every shape (and the nil config) together with its sum along dim, required >= 0; dims >= rank or negative must be rejected; inputs include 0, -0, |x| up to 700; distinct = distinct (activation, shape, parameter)",
 	}))
@@ -122,6 +143,7 @@ func init() {
 		assumptions: []string{"known finding D2: W and B are expanded over the batch (known_findings.json)"},
 	})
 	register("C17", "exploration", symCheck(symSpec{
+		bigFam: "c17",
 		module: "Gen_C17", partsQ: 2, partsT: 8, assignQ: 8, assignT: 24,
 		rule: "shape x learning rate {nil config, 0, -1/2, 2, 1/3}: w tracked leaf, BackPropagate(w*c) so that grad(w) = c, Update(&w): new tensor = w - lr*g element-wise with the same shape, pointer target replaced, old tensor object / values / gradient unchanged (bit-for-bit snapshots); a tensor without gradient must be rejected with nothing replaced; distinct = distinct (shape, learning rate)",
 	}))
